@@ -39,12 +39,14 @@ PROPERTY = "C03"
 LEAN_TARGETS = ["Ipv8.C03.Props"]
 PROPS_FILE = "Ipv8/C03/Props.lean"
 DRIVER = "drv_c03"
-RULE = ("decode: (class, start offset, bytes) with bytes = valid encoding generated from the class' format list, then "
+RULE = ("every key, address and choice derives from VERIF_SEED (one PRNG per section: decode / snapshot / receive); "
+        "decode: (class, start offset, bytes) with bytes = valid encoding generated from the class' format list, then "
         "every truncation / each length field +-1,+big / byte flips / garbage tail; receive: (registry history, datagram) "
         "with datagrams = prefix truncations, every msg id, exhaustive short cell headers, signed and unsigned structured "
         "bodies, all prefixes of valid datagrams, prefix bit flips, random strings to 1500 bytes; snapshot: mutated "
-        "address lists. distinct = distinct input; non-trivial = not a pure random string (derived from a valid encoding "
-        "or addressed to a registered prefix)")
+        "address lists. distinct = distinct (world, history position, source, datagram) resp. (class, offset, bytes); "
+        "counted as non-trivial: every case except the generators `random` and `garbage` (i.e. also the exhaustive "
+        "msgid-only / prefix-truncation / single-field truncation families: they are boundary cases by construction)")
 TRUSTED_BASE = [
     "tools/gen_c03.py: live introspection of packers/payload classes/overlays and AST extraction of the guards of "
     "Community.on_packet, on_packet_from_circuit, PythonCryptoEndpoint.on_packet, CellPayload.from_bin",
@@ -55,12 +57,23 @@ TRUSTED_BASE = [
 ]
 ASSUMPTIONS = [
     "exceptions derived from Exception only (a handler raising BaseException, e.g. KeyboardInterrupt, is not caught by the code)",
-    "listeners other than Community / PythonCryptoEndpoint are assumed not to raise (Listener.inert)",
+    "listeners outside the package (the harness' recorders) are assumed not to raise (Listener.inert); the shipped kinds "
+    "Community, PythonCryptoEndpoint, StatisticsEndpoint are modelled and the translator fails on any other shipped EndpointListener",
+    "source addresses handed to listeners are 2-field tuples / namedtuples (UDPv4Address, UDPv6Address, DomainAddress, plain tuple); "
+    "negative start offsets (Python reads from the end) are outside the decode model",
     "start offsets handed to unpack_serializable are non-negative",
 ]
 
 _TABLES = None
 SRC_ADDR = ("1.2.3.4", 5)
+
+
+def _sources():
+    from ipv8.messaging.interfaces.udp.endpoint import DomainAddress, UDPv4Address, UDPv6Address
+    return [lambda: UDPv4Address("1.2.3.4", 5), lambda: ("1.2.3.4", 5), lambda: UDPv6Address("::1", 7),
+            lambda: DomainAddress("relay.example", 80), lambda: ("2001:db8::1", 9, 0, 0), lambda: UDPv4Address("9.9.9.9", 0)]
+
+
 
 
 def tables():
@@ -126,11 +139,26 @@ def site_of(exc: BaseException) -> str:
 _KEYS = None
 
 
+_KEYRNG = None
+
+
+def det_key(rng):
+    """a curve25519 key pair derived from the seeded PRNG (the library's own generator uses OS randomness)"""
+    from ipv8.keyvault.crypto import default_eccrypto
+    return default_eccrypto.key_from_private_bin(b"LibNaCLSK:" + bytes(rng.getrandbits(8) for _ in range(64)))
+
+
+def reset_keys(seed):
+    global _KEYS, _SKEYS, _KEYRNG
+    import random as _random
+    _KEYRNG = _random.Random(f"{seed}:keys")
+    _KEYS = [det_key(_KEYRNG) for _ in range(3)]
+    _SKEYS = [det_key(_KEYRNG) for _ in range(4)]
+
+
 def key_pool():
-    global _KEYS
     if _KEYS is None:
-        from ipv8.keyvault.crypto import default_eccrypto
-        _KEYS = [default_eccrypto.generate_key("curve25519") for _ in range(3)]
+        reset_keys(0)
     return _KEYS
 
 
@@ -138,10 +166,8 @@ _SKEYS = None
 
 
 def sender_keys():
-    global _SKEYS
     if _SKEYS is None:
-        from ipv8.keyvault.crypto import default_eccrypto
-        _SKEYS = [default_eccrypto.generate_key("curve25519") for _ in range(4)]
+        reset_keys(0)
     return _SKEYS
 
 
@@ -440,10 +466,26 @@ def run_decode(ctx: Ctx, n_rounds: int, use_model: bool, full: bool):
             if probe[0] != "ok" or probe[1] != real[1]:
                 ctx.disagree(f"probe run differs from the production call on {name}: {probe[:2]} vs {real}", replay)
         check_records(ctx, list(log), replay)
+        if real[0] == "ok" and probe[0] == "ok":
+            # the value the handler receives: for payload classes that store the unpack list under `names` without
+            # conversion hooks, every field must be the corresponding item of the raw unpack list
+            names = getattr(cls, "names", None)
+            if names and len(names) == len(raw) and not any(hasattr(cls, "fix_unpack_" + n) for n in names) \
+                    and not any(isinstance(f, (list, type)) for f in cls.format_list):
+                for nme, rv in zip(names, raw):
+                    ov = getattr(obj, nme, None)
+                    if not (ov == rv or repr(ov) == repr(rv)):       # repr: NaN items compare unequal to themselves
+                        fail(ctx, "Serializer.unpack_serializable:value-differs-from-unpack-list",
+                             f"{name}.{nme} is {ov!r:.80} but the decoded item is {rv!r:.80}", replay)
+                        break
+                ctx.count("decode:value-checked-on-production-object")
         if real[0] == "err" and probe[0] == "ok":
             # from_unpack_list of the real class rejected the values: still an error, fine
             ctx.count("decode:rejected-by-from_unpack_list")
         ctx.case(("dec", name, off, data), label != "garbage")
+        if label in ("len+1", "trunc") and len(ctx.samples) < 3 and len(data) > 6:
+            ctx.sample({"decode": name, "offset": off, "mutation": label, "data": data.hex()[:120],
+                        "implementation": (real[0] + (" end %d" % real[1] if real[0] == "ok" else " " + real[1]))})
         lines.append(f"dec {name} {hx(data)} {off}")
         if probe[0] == "ok":
             expect.append((f"ok {probe[1]} {probe[2]}", name, replay, None))
@@ -532,12 +574,15 @@ def _real_ok(ser, classes, data, off) -> bool:
 class World:
     """one mock endpoint with real overlays on it, every registry call mirrored as a model line"""
 
-    def __init__(self, ctx: Ctx, name: str, model_net: bool = False):
+    def __init__(self, ctx: Ctx, name: str, model_net: bool = False, ep=None):
         from ipv8.test.mocking.endpoint import AutoMockEndpoint
         self.ctx = ctx
         self.name = name
-        self.ep = AutoMockEndpoint()
-        self.ep.open()
+        if ep is None:
+            ep = AutoMockEndpoint()
+            ep.open()
+        self.ep = ep
+        self.stats: dict[int, object] = {}
         self.lines: list[str] = ["reset"]
         self.expect: list = [None]
         self.ids: dict[int, int] = {}
@@ -672,14 +717,15 @@ class World:
     def add_overlay(self, cls, settings=None, peer=None):
         from ipv8.keyvault.crypto import default_eccrypto
         from ipv8.peer import Peer
-        peer = peer or Peer(default_eccrypto.generate_key("curve25519"), self.ep.wan_address)
+        wan = getattr(self.ep, "wan_address", None) or self.ep.get_address()
+        peer = peer or Peer(det_key(_KEYRNG), wan)
         st = cls.settings_class(my_peer=peer, endpoint=self.ep, network=self.network)
         if settings is not None:
             settings.__dict__.update(st.__dict__)
             st = settings
         o = cls(st)
-        o.my_estimated_wan = self.ep.wan_address
-        o.my_estimated_lan = self.ep.lan_address
+        o.my_estimated_wan = wan
+        o.my_estimated_lan = getattr(self.ep, "lan_address", wan)
         self.overlays.append(o)
         self.instrument_overlay(o)
         return o
@@ -760,15 +806,31 @@ class World:
             self.ep.add_listener(li)
         return li
 
+    def add_stats(self, prefixes):
+        """the shipped StatisticsEndpoint: registers itself as a global listener of the endpoint it decorates"""
+        from ipv8.messaging.interfaces.statistics_endpoint import StatisticsEndpoint
+        se = StatisticsEndpoint(self.ep)          # -> endpoint.add_listener(se), mirrored by the registry wrapper
+        self.stats[self.lid(se)] = se
+        self.wrap_on_packet(se)
+        for p in prefixes:
+            se.enable_community_statistics(p, True)
+        self.sync_stats()
+        return se
+
+    def sync_stats(self):
+        for lid, se in self.stats.items():
+            ps = [bytes(k) for k in se.statistics]
+            self.emit(f"st {lid} {','.join(hx(p) for p in ps) if ps else '-'}")
+
     def sync_crypto(self):
         for lid, ce in self.cryptos.items():
             tc = ce.tunnel_community
             st = (hx(bytes(ce.prefix)), self.lid(tc) if tc is not None else "none", sorted(ce.relays), sorted(ce.circuits),
-                  sorted(ce.exit_sockets), ce.max_relay_early)
+                  sorted(ce.exit_sockets), ce.max_relay_early, sorted(c for c, ci in ce.circuits.items() if not ci.hops))
             if self.crypto_state.get(lid) != st:
                 self.crypto_state[lid] = st
                 ls = lambda x: "[" + ",".join(map(str, x)) + "]"   # noqa: E731
-                self.emit(f"cr {lid} {st[0]} {st[1]} {ls(st[2])} {ls(st[3])} {ls(st[4])} {st[5]}")
+                self.emit(f"cr {lid} {st[0]} {st[1]} {ls(st[2])} {ls(st[3])} {ls(st[4])} {st[5]} {ls(st[6])}")
 
     # ---- decryption oracle (real keys)
     def dec_oracle(self, data: bytes) -> str:
@@ -782,6 +844,8 @@ class World:
             ex, ci = ce.exit_sockets.get(cid), ce.circuits.get(cid)
             if ex is None and ci is None:
                 return "na"
+            if ex is None and not ci.hops:
+                return "na"          # "no hops yet": dropped by incoming_crypto before any decryption
             hops, direction = ([ex.hop], FORWARD) if ex is not None else (list(ci.hops), BACKWARD)
             if ci is not None and ex is None and ci.hs_session_keys:
                 return "na"
@@ -815,9 +879,18 @@ class World:
         anyp = any(q == p for _, q in self.registered)
         return (pref + glob) if anyp else glob
 
-    def notify(self, data: bytes, label: str, via=None, src=SRC_ADDR):
+    def notify(self, data: bytes, label: str, via=None, src=SRC_ADDR, src_obj=None, dgram=None):
+        """src_obj: the source exactly as handed to the listeners (namedtuple kinds, plain tuple); dgram=(v6, addr tuple):
+        deliver through the endpoint's datagram_received instead of notify_listeners"""
         from ipv8.messaging.interfaces.udp.endpoint import UDPv4Address
         ctx = self.ctx
+        if src_obj is None:
+            src_obj = UDPv4Address(*src)
+        else:
+            src = (str(src_obj[0]), src_obj[1])
+            ctx.count(f"recv:source-kind:{type(src_obj).__name__}")
+        if dgram is not None:
+            src = (str(dgram[1][0]), dgram[1][1])
         self.sync_crypto()
         dec = self.dec_oracle(data)
         self.events = []
@@ -825,15 +898,16 @@ class World:
         exn = "none"
         expected = self.expected_recipients(data) if self.ep.is_open() else []
         # listeners that some script removes, and scripts that close the endpoint, legitimately change who is called
-        removed = {self.lid(op[1]) for ops in self.scripts.values() for op in ops if op[0] == "rm"}
-        closes = any(op[0] == "open" and not op[1] for ops in self.scripts.values() for op in ops)
+
         try:
             if ctx.counts.get("oracle-failure:Endpoint.notify_listeners:hang", 0) >= 2:
                 return
             self.in_dispatch = True
             with watchdog(10):
-                if via is None:
-                    self.ep.notify_listeners((UDPv4Address(*src), data))
+                if dgram is not None:
+                    self.ep.datagram_received(data, dgram[1])
+                elif via is None:
+                    self.ep.notify_listeners((src_obj, data))
                 else:
                     via(data)
         except Hang:
@@ -842,13 +916,20 @@ class World:
         except Exception as e:
             exn = type(e).__name__
             fail(ctx, f"{site_of(e)}:{type(e).__name__}",
-                            f"{type(e).__name__} ({str(e)[:120]}) escaped from notify_listeners for a {len(data)}-byte "
+                            f"{type(e).__name__} ({str(e)[:120]}) escaped from "
+                            f"{'datagram_received' if dgram is not None else 'notify_listeners'} for a {len(data)}-byte "
                             f"datagram [{label}] in world {self.name}", self.replay(data))
         finally:
             self.in_dispatch = False
         if self.harness_errors:
             raise InfraError("harness instrumentation failed: " + self.harness_errors[0])
         called = {int(e[1:]) for e in self.events if e.startswith("c")}
+        # only the behaviours of listeners that actually ran can legitimately change who is called
+        ran = [ops for lid, ops in self.scripts.items() if lid in called]
+        removed = {self.lid(op[1]) for ops in ran for op in ops if op[0] == "rm"}
+        closes = any(op[0] == "open" and not op[1] for ops in ran for op in ops)
+        if dgram is not None and not getattr(self.ep, "_running", True):
+            expected = []
         if exn == "none" and not closes:
             for l in expected:
                 if l not in called and l not in removed:
@@ -862,7 +943,14 @@ class World:
         ctx.case((self.name, len(self.lines), data, src), label not in ("random",))
         if any(self.scripts.values()):
             ctx.count(f"recv:reentrant-dispatch:recipients:{min(len(expected), 4)}")
-        self.lines.append(f"notify {hx(self.addr_bytes(src))} {hx(data)} {dec}")
+        if len(ctx.samples) < 6 and label in ("signed-valid", "cell-plain-payload", "reentrant", "sender-history", "udp6"):
+            ctx.sample({"world": self.name, "generator": label, "source": list(src), "datagram": data.hex()[:160],
+                        "implementation": " ".join(self.events)[:200]})
+        if dgram is not None:
+            self.lines.append(f"dgram {1 if getattr(self.ep, '_running', True) else 0} {1 if dgram[0] else 0} {len(dgram[1])} "
+                              f"{hx(self.addr_bytes(src))} {hx(data)} {dec}")
+        else:
+            self.lines.append(f"notify {hx(self.addr_bytes(src))} {hx(data)} {dec}")
         self.expect.append((" ".join(self.events) + " exn=none", exn, dict(self.replay(data), src=list(src)), label))
 
     def compare(self, use_model: bool):
@@ -889,7 +977,10 @@ class World:
                 await o.unload()
             except Exception:
                 pass
-        self.ep.close()
+        try:
+            self.ep.close()
+        except Exception:
+            pass
 
 
 def make_probe_community():
@@ -1053,7 +1144,8 @@ def gen_datagrams(ctx: Ctx, world: World, quick: bool, orig_handlers: dict, cls_
                                 if ex is not None:
                                     msg = ex.hop.keys.encrypt_str(msg, FORWARD)
                                 elif ci is not None and ci.hops:
-                                    msg = ci.hops[0].keys.encrypt_str(msg, BACKWARD)
+                                    for h in reversed(ci.hops):        # the originator peels hop 0 first
+                                        msg = h.keys.encrypt_str(msg, BACKWARD)
                             except Exception:
                                 pass
                         yield ("cell-plain-payload" if pt else "cell-encrypted-payload"), hdr + msg
@@ -1092,6 +1184,11 @@ def install_circuits(world: World, o, rng):
     c = Circuit(1001, 1)
     c.add_hop(Hop(peer, generate_session_keys(b"c" * 64)))
     o.circuits[1001] = c
+    o.circuits[1005] = Circuit(1005, 1)                 # CREATE sent, CREATED pending: no hops yet
+    c2 = Circuit(1006, 2)
+    c2.add_hop(Hop(peer, generate_session_keys(b"h" * 64)))
+    c2.add_hop(Hop(peer, generate_session_keys(b"i" * 64)))
+    o.circuits[1006] = c2
     o.exit_sockets[2002] = TunnelExitSocket(2002, Hop(peer, generate_session_keys(b"e" * 64)), o)
     o.relay_from_to[3003] = RelayRoute(3004, Hop(peer, generate_session_keys(b"r" * 64)), FORWARD)
     o.relay_from_to[3004] = RelayRoute(3003, Hop(peer, generate_session_keys(b"r" * 64)), 1 - FORWARD if FORWARD in (0, 1) else FORWARD)
@@ -1159,7 +1256,9 @@ async def run_receive(ctx: Ctx, use_model: bool, quick: bool):
         if hasattr(o, "decode_map_private"):
             install_circuits(w, o, rng)
     w.add_inert()
+    w.add_stats([bytes(o.get_prefix()) for o in w.overlays[:3]])       # before some, after other listeners in the list
     w.add_inert(prefix=bytes(w.overlays[0].get_prefix()))
+    w.add_inert()
     worlds.append(w)
     # 3. global registration: overlays listen to everything, only their own prefix check protects them
     w = World(ctx, "global")
@@ -1172,13 +1271,16 @@ async def run_receive(ctx: Ctx, use_model: bool, quick: bool):
             install_circuits(w, o, rng)
             w.ep.remove_listener(o.crypto_endpoint)
             w.ep.add_listener(o.crypto_endpoint)
+    w.add_stats([bytes(o.get_prefix()) for o in w.overlays])
     w.add_inert()
     worlds.append(w)
+
+    sources = _sources()
 
     def churn(w):
         """unmodelled Network churn (oracle only): peers that handlers verified are removed again, so the next datagram
         from their address meets whatever is left in the Network's caches"""
-        for peer in list(w.network.verified_peers)[:3]:
+        for peer in sorted(w.network.verified_peers, key=lambda q: q.mid)[:3]:
             how = rng.choice(["remove_peer", "remove_by_address", "keep"])
             ctx.count(f"recv:churn:{how}")
             if how == "remove_peer":
@@ -1189,7 +1291,7 @@ async def run_receive(ctx: Ctx, use_model: bool, quick: bool):
     for w in worlds:
         n = 0
         for label, data in gen_datagrams(ctx, w, quick, orig_handlers, cls_descs):
-            w.notify(data, label)
+            w.notify(data, label, src_obj=rng.choice(sources)() if n % 3 else None)
             n += 1
             if n % 25 == 0:
                 churn(w)
@@ -1204,10 +1306,11 @@ async def run_receive(ctx: Ctx, use_model: bool, quick: bool):
     objs = []
     for name, cls, mk in [s for s in all_specs if s[0] in ("DiscoveryCommunity", "ProbeCommunity", "TunnelCommunity")]:
         objs.append(add(w, cls, mk))
-    inert = [w.add_inert(), w.add_inert(prefix=bytes(objs[0].get_prefix()))]
+    inert = [w.add_inert(), w.add_inert(prefix=bytes(objs[0].get_prefix())),
+             w.add_stats([bytes(o.get_prefix()) for o in objs[:2]])]
     pool = objs + inert + [o.crypto_endpoint for o in objs if hasattr(o, "crypto_endpoint")]
-    for step in range(60 if quick else 600):
-        op = rng.choice(["add", "addp", "rm", "rm", "close", "open", "open"])
+    for step in range(200 if quick else 1500):
+        op = rng.choice(["add", "addp", "rm", "rm", "close", "open", "open", "stats"])
         x = rng.choice(pool)
         ctx.count(f"recv:registry-op:{op}")
         if op == "add":
@@ -1217,6 +1320,10 @@ async def run_receive(ctx: Ctx, use_model: bool, quick: bool):
             w.ep.add_prefix_listener(x, p)
         elif op == "rm":
             w.ep.remove_listener(x)
+        elif op == "stats":
+            se = inert[2]
+            se.enable_community_statistics(bytes(rng.choice(objs).get_prefix()), rng.random() < 0.6)
+            w.sync_stats()
         elif op == "close":
             w.ep.close()
             w.emit("open 0")
@@ -1251,7 +1358,7 @@ async def run_receive(ctx: Ctx, use_model: bool, quick: bool):
     glob = [w.add_inert(), w.add_inert(), w.add_inert()]
     pinert = [w.add_inert(prefix=PP), w.add_inert(prefix=DP)]
     spares = [w.add_inert(global_=False) for _ in range(3)]        # never get a script: keeps every dispatch finite
-    actors = glob + pinert + [pc, dc, tc.crypto_endpoint]
+    actors = glob + pinert + [pc, dc, tc.crypto_endpoint, w.add_stats([PP, DP])]
     everyone = actors + spares
     for step in range(120 if quick else 1500):
         # a fresh small registration (ordinary, non re-entrant calls) so that the listener lists stay short
@@ -1309,7 +1416,9 @@ async def run_receive(ctx: Ctx, use_model: bool, quick: bool):
     dc = add(w, *by_name["DiscoveryCommunity"])      # (DHTCommunity keeps a private Network of its own)
     w.add_inert()
     PP, DP = bytes(pc.get_prefix()), bytes(dc.get_prefix())
-    addrs = [("10.0.0.%d" % i, 1000 + i) for i in range(1, 6)]
+    addrs = [("10.0.0.%d" % i, 1000 + i) for i in range(1, 10)]
+    w.network.reverse_ip_cache_size = 3              # so that the LRU eviction path runs (default 500)
+    w.emit("net cap 3")
     holders = lambda a: [q for q in w.network.verified_peers if tuple(a) in [tuple(v) for v in q.addresses.values()]]  # noqa: E731
     for step in range(150 if quick else 2500):
         for _ in range(rng.choice([1, 1, 2, 3])):
@@ -1351,7 +1460,7 @@ async def run_receive(ctx: Ctx, use_model: bool, quick: bool):
     worlds.append(w)
 
     # 7. the real UDP transport callback
-    await run_udp(ctx, rng, Probe)
+    await run_udp(ctx, rng, Probe, use_model)
 
     for _ in range(5):
         await asyncio.sleep(0)
@@ -1374,47 +1483,39 @@ async def run_receive(ctx: Ctx, use_model: bool, quick: bool):
                         f"{e!r}", {"kind": "loop", "message": str(c.get("message")), "exception": repr(e)})
 
 
-async def run_udp(ctx: Ctx, rng, Probe):
-    """datagram_received of a really opened UDPEndpoint: the transport-facing entry point"""
-    from ipv8.community import CommunitySettings
-    from ipv8.keyvault.crypto import default_eccrypto
-    from ipv8.messaging.anonymization.community import TunnelCommunity, TunnelSettings
-    from ipv8.messaging.interfaces.udp.endpoint import UDPEndpoint
-    from ipv8.peer import Peer
-    from ipv8.peerdiscovery.network import Network
-    ep = UDPEndpoint(port=0, ip="127.0.0.1")
-    opened = False
-    try:
-        opened = bool(await ep.open())
-    except Exception:
+async def run_udp(ctx: Ctx, rng, Probe, use_model: bool):
+    """datagram_received of really opened UDP endpoints (IPv4 and IPv6): the entry point the asyncio transport calls;
+    the address tuples are the ones asyncio hands over (2 items for AF_INET, 4 for AF_INET6)"""
+    from ipv8.messaging.anonymization.community import TunnelCommunity
+    from ipv8.messaging.interfaces.udp.endpoint import UDPEndpoint, UDPv6Endpoint
+    for v6, cls, ip, addrs in ((False, UDPEndpoint, "127.0.0.1", [("127.0.0.1", 4242), ("10.1.2.3", 1)]),
+                               (True, UDPv6Endpoint, "::1", [("::1", 4242, 0, 0), ("fe80::1", 5, 0, 3)])):
+        ep = cls(port=0, ip=ip)
         opened = False
-    if not opened or not ep.is_open():
-        ctx.count("recv:udp:not-opened")
+        try:
+            opened = bool(await ep.open())
+        except Exception:
+            opened = False
+        if not opened or not ep.is_open():
+            ctx.count(f"recv:udp{'6' if v6 else '4'}:socket-not-opened(_running forced)")
+            ep._running = True
+        w = World(ctx, "udp6" if v6 else "udp4", ep=ep)
+        ovs = [w.add_overlay(Probe), w.add_overlay(TunnelCommunity)]
+        w.add_stats([bytes(ovs[0].get_prefix())])
+        for o in ovs:
+            P = bytes(o.get_prefix())
+            pub = [i for i, h in enumerate(o.decode_map) if h is not None]
+            cases = [P[:k] for k in range(23)] + [P + bytes([m]) for m in range(0, 256, 3)] + \
+                    [P + b"\x00" + rbytes(rng, n) for n in range(0, 9)] + \
+                    [P + bytes([m]) + rbytes(rng, 20) for m in pub] + [b"", rbytes(rng, 1500)]
+            for d in cases:
+                w.notify(d, "udp6" if v6 else "udp4", dgram=(v6, rng.choice(addrs)))
+        ep._running = False                      # a closed endpoint drops everything
+        for d in (P, P + b"\x01abc"):
+            w.notify(d, "udp-not-running", dgram=(v6, addrs[0]))
         ep._running = True
-    peer = Peer(default_eccrypto.generate_key("curve25519"), ("127.0.0.1", 1))
-    ovs = [Probe(CommunitySettings(my_peer=peer, endpoint=ep, network=Network())),
-           TunnelCommunity(TunnelSettings(my_peer=peer, endpoint=ep, network=Network()))]
-    for o in ovs:
-        P = bytes(o.get_prefix())
-        pub = [i for i, h in enumerate(o.decode_map) if h is not None]
-        cases = [P[:k] for k in range(23)] + [P + bytes([m]) for m in range(256)] + \
-                [P + b"\x00" + rbytes(rng, n) for n in range(0, 9)] + \
-                [P + bytes([m]) + rbytes(rng, 20) for m in pub] + [b"", rbytes(rng, 1500)]
-        for d in cases:
-            ctx.count("recv:udp:datagram_received")
-            ctx.case(("udp", type(o).__name__, d), True)
-            try:
-                ep.datagram_received(d, ("127.0.0.1", 4242))
-            except Exception as e:
-                fail(ctx, f"{site_of(e)}:{type(e).__name__}",
-                                f"{type(e).__name__} reached the UDP transport callback (datagram_received) for a "
-                                f"{len(d)}-byte datagram", {"kind": "udp", "overlay": type(o).__name__, "datagram": d.hex()})
-    for o in ovs:
-        await o.unload()
-    try:
-        ep.close()
-    except Exception:
-        pass
+        w.compare(use_model)
+        await w.close()
 
 
 # =================================================================================================== C. snapshot
@@ -1464,6 +1565,9 @@ def run_snapshot(ctx: Ctx, n: int, use_model: bool):
     if use_model and lines:
         for ln, model, (impl, replay) in zip(lines, ctx.driver().batch(lines), expect):
             # the implementation stores addresses in a dict: duplicates collapse; compare as ordered de-duplicated lists
+            if model.startswith("exn="):
+                ctx.disagree(f"load_snapshot: the model raises ({model}) where the implementation returned", dict(replay, line=ln))
+                continue
             seen, dedup = set(), ""
             for item in [x for x in model.split(";") if x]:
                 if item not in seen:
@@ -1474,13 +1578,24 @@ def run_snapshot(ctx: Ctx, n: int, use_model: bool):
 
 
 # =================================================================================================== entry points
-def _run_all(ctx: Ctx, use_model: bool, quick: bool, decode_rounds: int, snaps: int):
+def _run_all(ctx: Ctx, use_model: bool, quick: bool, decode_rounds: int, snaps: int,
+             sections=("decode", "snapshot", "receive")):
     lvl = logging.root.manager.disable
     logging.disable(logging.CRITICAL)
+    import random as _random
     try:
-        run_decode(ctx, decode_rounds, use_model, full=not quick)
-        run_snapshot(ctx, snaps, use_model)
-        asyncio.run(run_receive(ctx, use_model, quick))
+        reset_keys(ctx.seed)
+        if "decode" in sections:
+            ctx.rng = _random.Random(f"{ctx.seed}:decode")
+            run_decode(ctx, decode_rounds, use_model, full=not quick)
+        if "snapshot" in sections:
+            ctx.rng = _random.Random(f"{ctx.seed}:snapshot")
+            run_snapshot(ctx, snaps, use_model)
+        if "receive" in sections:
+            ctx.rng = _random.Random(f"{ctx.seed}:receive")
+            reset_keys(ctx.seed)
+            _random.seed(f"{ctx.seed}:global")      # the mock endpoints' addresses and the overlays' circuit ids use `random`
+            asyncio.run(run_receive(ctx, use_model, quick))
     finally:
         logging.disable(lvl)
 
@@ -1525,8 +1640,21 @@ def replay(ctx: Ctx, rec: dict):
             print(f"replay: load_snapshot raised {type(e).__name__}")
             fail(ctx, "replay", "replayed snapshot still fails", r)
         ctx.case(("replay",), True)
-    elif kind in ("receive", "udp"):
-        asyncio.run(_replay_receive(ctx, r))
+    elif kind in ("receive", "udp", "loop"):
+        # worlds are history dependent (registry calls, re-entrant behaviours, Network state, handler side effects), so
+        # the recorded run is reproduced exactly: same seed, same tier, receive section only (every choice and every key
+        # derives from the seed); the failure reproduces if its signature fails again
+        sig = rec.get("signature", "")
+        ctx.seed = int(rec.get("seed", ctx.seed))
+        tier = rec.get("tier", "quick")
+        before = len(ctx.failures)
+        _run_all(ctx, False, tier != "thorough", 0, 0, sections=("receive",))
+        again = [f for f in ctx.failures[before:] if f["signature"] == sig]
+        print(f"replay: receive section re-run with seed {ctx.seed} ({tier}); signature {sig!r}: "
+              f"{'property FAILS again: ' + again[0]['what'][:200] if again else 'does not fail'}")
+        if not again:
+            del ctx.failures[before:]
+            asyncio.run(_replay_receive(ctx, r))
     else:
         print("replay: nothing to replay for this record")
 
